@@ -690,6 +690,127 @@ def xdep(P, rep, funcs, rule="XDEP"):
         rep.ok(rule + ".fn", "%s: %d uses of the request list examined" % (F.qn, n_uses), F.loc, F.qn)
 
 
+def upward_exposed(P, F, loop, body, key):
+    """is there a path from the start of the loop body to a use of variable `key` that does not first pass a
+    plain whole-variable assignment `key = e`?  (CFG walk; elements are in evaluation order)"""
+    if not F.cfg:
+        return True
+    body_ids = {n["i"] for n in F.walk(body)}
+    kill_lhs = set()    # DeclRefExpr ids that are the direct target of a plain assignment
+    kills = {}          # assignment node id -> True
+    for n in F.walk(body):
+        k = n.get("k")
+        if (k == "BinaryOperator" and n.get("op") == "=") or (k == "CXXOperatorCallExpr" and n.get("op") == "=" and n.get("memop")):
+            t = norm.strip_casts(n["c"][0])
+            if t is not None and t.get("k") == "DeclRefExpr" and t.get("r") == key:
+                kill_lhs.add(t["i"])
+                kills[n["i"]] = True
+    uses = {n["i"] for n in F.walk(body) if n.get("k") == "DeclRefExpr" and n.get("r") == key and n["i"] not in kill_lhs}
+    if not uses:
+        return False
+    blocks = F.blocks()
+    first = None
+    for st in astq.stmts_of(body):
+        first = F.block_of(st)
+        if first is not None:
+            break
+    if first is None:
+        return True
+    seen, work = set(), [first]
+    while work:
+        bid = work.pop()
+        if bid in seen:
+            continue
+        seen.add(bid)
+        blk = blocks[bid]
+        elems = list(blk["s"]) + ([blk["t"]] if "t" in blk else [])
+        if not any(e in body_ids for e in elems) and bid != first:
+            continue     # left the body (loop increment / condition / after the loop)
+        killed = False
+        for e in blk["s"]:
+            if e in uses:
+                return True
+            if e in kills:
+                killed = True
+                break
+        if killed:
+            continue
+        # a terminator condition's sub-expressions are elements of the block already
+        for sx in blk["succ"]:
+            if sx is not None:
+                work.append(sx)
+    return False
+
+
+def carried(P, rep, funcs, rule="XDEP.carried"):
+    """nothing computed for one property of the request survives into the next one"""
+    rep.rule(rule, "inside the loop over the request list a function writes only objects declared inside the loop body "
+                   "(and the result vector): no local declared before the loop is assigned, incremented or mutated in "
+                   "the body, so no value computed for one property can reach the block of the next")
+    n_loops = 0
+    for F, prop_k in funcs:
+        for loop in F.walk():
+            if loop.get("k") != "ForStmt":
+                continue
+            okl, iv, bound = forward_loop(P, F, loop)
+            if not (okl and bound is not None):
+                continue
+            bm = astq.member_call(P, bound, "size")
+            if not (bm and astq.is_ref_to(bm[0], prop_k)):
+                continue
+            n_loops += 1
+            body = loop["c"][-1]
+            inside = {n["i"] for n in F.walk(body) if n.get("k") in ("VarDecl", "DecompositionDecl", "BindingDecl")}
+            inside_keys = {n.get("r", n.get("d")) for n in F.walk(body) if n.get("k") in ("VarDecl", "DecompositionDecl", "BindingDecl")}
+            n_w = 0
+            for n in F.walk(body):
+                k = n.get("k")
+                target = how = None
+                if k in ("BinaryOperator", "CompoundAssignOperator") and n.get("op") in norm.ASSIGN_OPS:
+                    target, how = n["c"][0], "assigned"
+                elif k == "UnaryOperator" and n.get("op") in ("++", "--"):
+                    target, how = n["c"][0], "incremented"
+                elif k == "CXXOperatorCallExpr" and n.get("op") in norm.ASSIGN_OPS and n.get("memop"):
+                    target, how = n["c"][0], "assigned"
+                elif k == "CXXMemberCallExpr" and n.get("c") and n["c"][0].get("k") == "MemberExpr":
+                    d = P.d(n.get("callee"))
+                    if not d.get("const") and n["c"][0].get("c"):
+                        target, how = n["c"][0]["c"][0], "mutated by %s()" % n["c"][0].get("n")
+                if target is None:
+                    continue
+                b = target
+                while True:
+                    b = norm.strip_casts(b)
+                    s2 = astq.subscript(b)
+                    if s2 is not None:
+                        b = s2[0]
+                        continue
+                    if b.get("k") == "MemberExpr" and not b.get("arrow") and b.get("c"):
+                        b = b["c"][0]
+                        continue
+                    break
+                if b.get("k") != "DeclRefExpr":
+                    continue
+                d = P.d(b["r"])
+                if d.get("k") not in ("Var", "Decomposition", "Binding"):
+                    continue
+                if d.get("storage") in ("static", "static_local", "global"):
+                    continue    # PURE decides these
+                n_w += 1
+                if b["r"] == iv or b["r"] in inside_keys:
+                    continue
+                if d.get("ref") or d.get("ptr"):
+                    continue    # an alias: decided where the referee is resolved (LAYOUT.L3 / PURE)
+                if not upward_exposed(P, F, loop, body, b["r"]):
+                    continue    # re-assigned as a whole before any use in every iteration: a hoisted scratch variable
+                rep.violation(rule, "%s: local '%s' declared before the property loop is %s inside it" % (F.qn, d.get("n"), how),
+                              F.nloc(n), F.qn, norm.render(P, n), "the value left by one property's iteration is visible to the next: "
+                              "a block depends on what else was requested and in what order",
+                              key="%s|%s|%s" % (rule, F.qn, d.get("n")), witness="the same property requested twice, or after another one, in one call")
+            rep.ok(rule, "%s: property loop at %s, %d local writes all to loop-body objects" % (F.qn, F.nloc(loop), n_w), F.nloc(loop), F.qn)
+    rep.floor(rule, n_loops, len(funcs), "loops over the request list")
+
+
 def describe_use(F, n):
     for a in [n] + list(F.ancestors(n)) if n is not None else []:
         if a.get("k") == "IfStmt":
